@@ -213,6 +213,19 @@ def s_eager_getitem(ctx, shape=(None,)):
             shift[a] = r - 1
     if not slices and not gathers:
         ctx.check("C11.eager.getitem.no_index_is_identity", all(full) and [c[0] for c in calls] == ["Identity"], CL)
+    # NumPy: an integer next to a tensor-valued index is an advanced index too; when the advanced indices are NOT adjacent
+    # (a slice stands between them) the dimensions of the tensor index come FIRST in the result.  Slice/Squeeze/Gather
+    # leave them in place, i.e. after every sliced axis that precedes the tensor component.
+    tens = [a for a in range(n) if kinds[a] == "tensor"]
+    if len(tens) == 1 and any(k == "const" for k in kinds):
+        a = tens[0]
+        adv = [b for b in range(n) if kinds[b] in ("const", "tensor")]
+        separated = any(kinds[b] == "slice" for b in range(min(adv), max(adv) + 1))
+        if separated:
+            slice_before = any(kinds[b] == "slice" for b in range(a))
+            r = RankOf(comps[a].ref)
+            ctx.check("C11.eager.getitem.tensor_index_dims_lead_the_result_when_an_int_index_is_separated_from_it_by_a_slice",
+                      z3.Implies(r >= 1, z3.BoolVal(not slice_before)), CL + " — NumPy puts the dimensions of non-adjacent advanced indices first")
 
 
 def wrap_int(t):
@@ -226,7 +239,7 @@ def _mk_e(shape):
     return run
 
 
-_ESHAPES = [(0,), (1,), (2,), (0, 1), (1, 0), (1, 1), (0, 2), (2, 1), (1, 2), (2, 0), (1, 1, 2), (0, 1, 2), (2, 0, 1)]
+_ESHAPES = [(0,), (1,), (2,), (0, 1), (1, 0), (1, 1), (0, 2), (2, 1), (1, 2), (2, 0), (1, 1, 2), (0, 1, 2), (2, 0, 1), (1, 0, 2)]
 _EK = {0: "slice", 1: "int", 2: "tensor"}
 SCENARIOS = [
     Scenario("C11.eager.getitem[" + ",".join(_EK[k] for k in shp) + "]", _mk_e(shp), [(TREL, "Tensor.__getitem__")],
